@@ -390,6 +390,7 @@ def check_message_passing(case, out):
 
 
 
+THOROUGH_SCALE = 5  # thorough-tier example counts are n["thorough"] x this (one thorough run then takes roughly 5-10 minutes on 16 cores)
 SUBCHECKS = [
     Sub("calibration", check_calibration, strategy=lambda tier: model_case(), n={"quick": 150, "thorough": 2500},
         shards={"quick": 8, "thorough": 16}, doc="calibrate / max_calibrate: clique and sepset beliefs proportional to (max-)marginals; adjacent cliques agree"),
